@@ -166,7 +166,18 @@ MISSING_USES = ["os.sep", "re.compile", "math.floor", "Path", "Sequence", "json.
 
 @st.composite
 def cases(draw):
+    """One client in one tree; every sixth case is a HISTORY: the same process first formats another client in another
+    tree that uses the SAME package and module names with a different layout, and the caches are not cleared in between."""
     uid = draw(st.integers(0, 16 ** 6 - 1))
+    case = draw(one_case(uid))
+    if draw(st.integers(0, 5)) == 0:
+        case["after"] = draw(one_case(uid))
+        case["forms"] = sorted(set(case["forms"]) | {"after-another-tree-with-the-same-names"})
+    return case
+
+
+@st.composite
+def one_case(draw, uid):
     P, M, M2 = f"vq{uid:06x}p", f"vq{uid:06x}m", f"vq{uid:06x}o"
     files, tree_info = tree_files(draw, P, M, M2)
     relative = draw(st.sampled_from([0, 0, 0, 0, 0, 0, 1, 2]))  # 0: client at the tree root, 1: inside the package, 2: inside the sub-package
@@ -283,7 +294,8 @@ def imports_all_work(client, modname):
 def rewrite(case, root):
     modname, fname = case["stage"]
     src = case["client"]
-    env.clear_caches()
+    if not case.get("after"):
+        env.clear_caches()  # (a history case keeps what the earlier call of the same process left behind)
     main = env.mod("main")
     if fname == "format_code":
         return progcheck.run_tool(main.format_code, src, preserve=frozenset({"RESULT"}))[:2]
@@ -322,6 +334,8 @@ def evaluate(case, info=None):
         files = "\n".join(f"--- {k}\n{v}" for k, v in sorted(case["files"].items()))
         fails.append({"bucket": bucket, "case": case, "detail": f"stage {case['stage'][1]} tree {case['tree']}\n{detail}\n--- client ({case['client_path']})\n{case['client']}\n{files}"})
 
+    if case.get("after"):
+        evaluate(dict(case["after"]), {})  # the earlier call: same names, other layout; its own verdict is not used here
     root = tempfile.mkdtemp(prefix="vf_c18_")
     cwd = os.getcwd()
     saved_path = list(sys.path)
